@@ -41,11 +41,19 @@ class LinePass(AbstractPass):
         return state + 1
 
     def advance_on_success(self, test_case, state):
-        return state + 1 if self.arg == 'indent' else state
+        return state + 1 if self.arg == 'indent' or (self.arg or '').startswith('restore=') else state
 
     def transform(self, test_case, state, process_event_notifier):
         with open(test_case) as f:
             lines = f.readlines()
+        if self.arg and self.arg.startswith('restore='):
+            # an undoing pass: writes a fixed text back (one candidate), so that a later pass meets that content again
+            want = self.arg[len('restore='):]
+            if state >= 1 or ''.join(lines) == want:
+                return (PassResult.STOP, state)
+            with open(test_case, 'w') as f:
+                f.write(want)
+            return (PassResult.OK, state)
         if self.arg == 'indent':
             # an undoing pass: puts the indentation back that a formatter strips (one candidate)
             if state >= 1 or not lines or all(l.startswith('    ') for l in lines):
@@ -247,7 +255,14 @@ def main():
                     obs['commits'].append([time.time(), str(env.test_case), sha(env.test_case_path)])
                     return opr(env)
                 tm.process_result = pr
-                passes = {k: [make_pass(s, external) for s in v] for k, v in scen['groups'].items()}
+                if 'group_dict' in scen:
+                    # the schedule as the front end builds it: the tree's own parser of pass-group files
+                    passes = CVise.parse_pass_group_dict(scen['group_dict'], set(scen.get('pass_options', [])), external, scen.get('remove_pass'),
+                                                       None, None, scen.get('not_c', False), scen.get('renaming', False))
+                    for cat, at, spec in scen.get('splice', []):       # harness passes put between the parsed ones
+                        passes[cat].insert(at, make_pass(spec, external))
+                else:
+                    passes = {k: [make_pass(s, external) for s in v] for k, v in scen['groups'].items()}
                 for k in ('first', 'main', 'last'):
                     passes.setdefault(k, [])
                 if scen.get('mode', 'reduce') == 'pass':
